@@ -183,11 +183,80 @@ def Local.isOk (l : Local) : Bool :=
 
 def okCount (ls : List Local) : Nat := (ls.filter Local.isOk).length
 
+def Local.okH (l : Local) : Option Nat :=
+  match l.res with
+  | some (.ok h) => some h
+  | _ => none
+
 /-- the heights reported by the calls that returned `Ok` -/
-def okHeights (ls : List Local) : List Nat :=
-  ls.filterMap fun l => match l.res with
-    | some (.ok h) => some h
-    | _ => none
+def okHeights (ls : List Local) : List Nat := ls.filterMap Local.okH
+
+theorem okH_of_not_ok (l : Local) (h : l.isOk = false) : l.okH = none := by
+  unfold Local.okH Local.isOk at *
+  split at h <;> simp_all
+
+theorem okH_of_res (l : Local) (h : Nat) (hr : l.res = some (.ok h)) : l.okH = some h := by
+  simp [Local.okH, hr]
+
+theorem okCount_eq (ls : List Local) : okCount ls = (okHeights ls).length := by
+  induction ls with
+  | nil => rfl
+  | cons l ls ih =>
+    simp only [okCount, okHeights, List.filter_cons, List.filterMap_cons] at ih ⊢
+    cases h : l.isOk with
+    | false => simp [okH_of_not_ok l h, ih]
+    | true =>
+      have : ∃ x, l.okH = some x := by
+        unfold Local.okH Local.isOk at *
+        split at h <;> simp_all
+      obtain ⟨x, hx⟩ := this
+      simp [hx, ih]
+
+theorem setNth_self {α : Type} : ∀ (ls : List α) (i : Nat) (a : α), ls[i]? = some a → setNth ls i a = ls
+  | [], _, _, _ => rfl
+  | x :: r, 0, a, h => by simp at h; simp [setNth, h]
+  | x :: r, i + 1, a, h => by
+    simp only [setNth]
+    rw [setNth_self r i a (by simpa using h)]
+
+theorem mem_setNth {α : Type} : ∀ (ls : List α) (i : Nat) (a x : α), x ∈ setNth ls i a → x ∈ ls ∨ x = a
+  | [], _, _, _, h => by simp [setNth] at h
+  | y :: r, 0, a, x, h => by
+    simp only [setNth, List.mem_cons] at h ⊢
+    rcases h with h | h
+    · exact Or.inr h
+    · exact Or.inl (Or.inr h)
+  | y :: r, i + 1, a, x, h => by
+    simp only [setNth, List.mem_cons] at h ⊢
+    rcases h with h | h
+    · exact Or.inl (Or.inl h)
+    · rcases mem_setNth r i a x h with h | h
+      · exact Or.inl (Or.inr h)
+      · exact Or.inr h
+
+theorem okHeights_setNth_same : ∀ (ls : List Local) (i : Nat) (l l' : Local), ls[i]? = some l →
+    l.isOk = false → l'.isOk = false → okHeights (setNth ls i l') = okHeights ls
+  | [], _, _, _, _, _, _ => rfl
+  | x :: r, 0, l, l', h, h1, h2 => by
+    simp at h; subst h
+    simp [setNth, okHeights, okH_of_not_ok _ h1, okH_of_not_ok _ h2]
+  | x :: r, i + 1, l, l', h, h1, h2 => by
+    have := okHeights_setNth_same r i l l' (by simpa using h) h1 h2
+    simp only [okHeights, setNth, List.filterMap_cons] at this ⊢
+    rw [this]
+
+theorem okHeights_setNth_new : ∀ (ls : List Local) (i : Nat) (l l' : Local) (hh : Nat), ls[i]? = some l →
+    l.isOk = false → l'.res = some (.ok hh) → (okHeights (setNth ls i l')).Perm (hh :: okHeights ls)
+  | [], _, _, _, _, h, _, _ => by simp at h
+  | x :: r, 0, l, l', hh, h, h1, h2 => by
+    simp at h; subst h
+    simp [setNth, okHeights, okH_of_not_ok _ h1, okH_of_res _ _ h2]
+  | x :: r, i + 1, l, l', hh, h, h1, h2 => by
+    have := okHeights_setNth_new r i l l' hh (by simpa using h) h1 h2
+    simp only [okHeights, setNth, List.filterMap_cons] at this ⊢
+    cases x.okH with
+    | none => exact this
+    | some y => exact (List.Perm.cons y this).trans (List.Perm.swap hh y _)
 
 /-- a call that has its `Ok` result has returned -/
 def Local.Settled (l : Local) : Prop := l.isOk = true → l.pc = .done
@@ -253,5 +322,93 @@ theorem commitStep_account (C : Crypto) (n : Node) (l : Local) (hs : l.Settled) 
             obtain ⟨_, _, _, _, hc'⟩ := append_ok_inv C _ _ _ _ happ
             rw [hc']
           exact ⟨fun _ => rfl, Or.inr (Or.inr ⟨hno, by simp [hh], by simp [finish, hh]⟩)⟩
+
+/-- a duplicate-free list of `k` numbers in `(a, a + k]` contains every number of that range -/
+theorem nodup_range_complete (a : Nat) : ∀ (k : Nat) (l : List Nat), l.Nodup → (∀ x ∈ l, a < x ∧ x ≤ a + k) → l.length = k →
+    ∀ x, a < x → x ≤ a + k → x ∈ l := by
+  intro k
+  induction k with
+  | zero => intro l _ _ _ x h1 h2; omega
+  | succ k ih =>
+    intro l hnd hb hlen x h1 h2
+    by_cases htop : (a + (k + 1)) ∈ l
+    · by_cases hx : x = a + (k + 1)
+      · rw [hx]; exact htop
+      · have hin := ih (l.erase (a + (k + 1))) (hnd.erase _)
+          (by
+            intro y hy
+            have hy' := (hnd.mem_erase_iff).mp hy
+            have := hb y hy'.2
+            have hne := hy'.1
+            omega)
+          (by rw [List.length_erase_of_mem htop, hlen]; rfl) x h1 (by omega)
+        exact List.mem_of_mem_erase hin
+    · exfalso
+      have hall : ∀ y ∈ l, a < y ∧ y ≤ a + k := by
+        intro y hy
+        have := hb y hy
+        have hne : y ≠ a + (k + 1) := fun h => htop (h ▸ hy)
+        omega
+      cases l with
+      | nil => simp at hlen
+      | cons y t =>
+        have hnd2 := List.nodup_cons.mp hnd
+        have hy := hall y (List.mem_cons_self ..)
+        exact hnd2.1 (ih t hnd2.2 (fun z hz => hall z (List.mem_cons_of_mem _ hz)) (by simpa using hlen) y hy.1 hy.2)
+
+/-! ### the node invariant of sequential histories with restarts -/
+
+structure NodeInv (C : Crypto) (cfg : Config) (n : Node) : Prop where
+  hcfg : n.cfg = cfg
+  hinv : Inv C cfg.registry n.chain
+  hdata : DataInv n.chain
+  hmeta : MetaInv n.chain
+  hgen : genesisTxs n.chain.store = []
+
+theorem genesisTxs_congr (s s' : List (SKey × SVal)) (h : blockAt s' 0 = blockAt s 0) : genesisTxs s' = genesisTxs s := by
+  simp only [genesisTxs, h]
+
+theorem addOp_chain (n : Node) (w : Nat) (t : Tx) : (addOp n w t).1.cfg = n.cfg ∧ (addOp n w t).1.chain = n.chain := by
+  unfold addOp; (repeat' split) <;> exact ⟨rfl, rfl⟩
+
+/-! ### workspace bookkeeping of `commit` -/
+
+theorem findWs_id (wss : List Ws) (w : Nat) (ws : Ws) (h : findWs wss w = some ws) : ws.id = w := by
+  have := List.find?_some h
+  simpa using this
+
+theorem findWs_setStates (wss : List Ws) (ids : List Nat) (st : WsState) (w : Nat) :
+    findWs (setStates wss ids st) w =
+      (findWs wss w).map fun x => if ids.contains x.id then { x with state := st } else x := by
+  unfold findWs setStates
+  induction wss with
+  | nil => rfl
+  | cons x r ih =>
+    have hid : (if ids.contains x.id then { x with state := st } else x : Ws).id = x.id := by split <;> rfl
+    simp only [List.map_cons, List.find?_cons, hid]
+    cases decide (x.id = w) with
+    | true => rfl
+    | false => exact ih
+
+/-- the five steps after the early checks, when `append` accepts the block: the workspace and every merged
+    workspace end `Committed` and leave the manager -/
+theorem pipeline_ok_wss (C : Crypto) (n : Node) (l : Local) (hpc : l.pc = .snapshot) (c' : ChainSt)
+    (happ : append C n.cfg.registry { n.chain with store := applyTxs n.chain.store l.ops }
+              (builtBlock C n l.ops l.dirs (stateRoot C (applyTxs n.chain.store l.ops)) l.ts) = .ok c') :
+    (commitRun C 7 n l).1.wss = setStates n.wss (l.ws :: l.merged) .committed := by
+  simp only [commitRun, commitStep, hpc, builtBlock] at happ ⊢
+  simp [happ, finish]
+
+/-- the early checks passed: the call works on workspace `w`, which is found in the table afterwards -/
+theorem prepare_ok_ws (C : Crypto) (n : Node) (w ts : Nat)
+    (hpc : (commitStep C n (Local.init w ts)).2.pc = .snapshot) :
+    (commitStep C n (Local.init w ts)).2.ws = w ∧
+    ∃ ws', findWs (commitStep C n (Local.init w ts)).1.wss w = some ws' := by
+  simp only [commitStep, Local.init] at hpc ⊢
+  cases hf : findWs n.wss w with
+  | none => simp [hf] at hpc
+  | some ws =>
+    simp only
+    (repeat' split) <;> exact ⟨rfl, by simp [finish, findWs_setStates, hf]⟩
 
 end Neumann.Chain
